@@ -51,6 +51,9 @@ pub struct World {
     /// gzip files are named without the .gz suffix (content sniffing has to find out)
     #[serde(default)]
     pub gz_misnamed: bool,
+    /// text shape of the input files: 0 = LF with final newline, 1 = CRLF, 2 = LF without final newline
+    #[serde(default)]
+    pub text_variant: u8,
     /// column order of the vertex file, may contain extra columns
     pub vertex_cols: Vec<String>,
     pub explicit_counts: bool,
@@ -209,6 +212,7 @@ impl World {
             gz_vertices: r.chance(0.3),
             gz_tables: r.chance(0.3),
             gz_misnamed: false,
+            text_variant: 0,
             vertex_cols,
             explicit_counts: r.chance(0.3),
             traversal: Traversal::Distance { unit: "kilometers".into() },
@@ -282,11 +286,19 @@ impl World {
     }
 
     /// all simulated input files of this world
+    fn shape(&self, text: String) -> Vec<u8> {
+        match self.text_variant {
+            1 => text.replace('\n', "\r\n").into_bytes(),
+            2 => text.strip_suffix('\n').unwrap_or(&text).to_string().into_bytes(),
+            _ => text.into_bytes(),
+        }
+    }
+
     pub fn files(&self) -> Vec<(String, Vec<u8>)> {
         let mut v = vec![];
-        let e = self.edges_csv().into_bytes();
+        let e = self.shape(self.edges_csv());
         v.push((self.edges_path(), if self.gz_edges { gz(&e) } else { e }));
-        let vx = self.vertices_csv().into_bytes();
+        let vx = self.shape(self.vertices_csv());
         v.push((self.vertices_path(), if self.gz_vertices { gz(&vx) } else { vx }));
         let tab = |xs: &Vec<f64>| -> Vec<u8> {
             let mut s = String::new();
@@ -294,12 +306,12 @@ impl World {
                 s.push_str(&fmt_f(*x));
                 s.push('\n');
             }
-            let b = s.into_bytes();
+            let b = self.shape(s);
             if self.gz_tables { gz(&b) } else { b }
         };
         v.push((self.table_path("speeds"), tab(&self.speeds)));
         v.push((self.table_path("grades"), tab(&self.grades)));
-        let g = self.geoms_txt().into_bytes();
+        let g = self.shape(self.geoms_txt());
         v.push((self.table_path("geoms"), if self.gz_tables { gz(&g) } else { g }));
         v.push(("/sim/config.json".to_string(), b"{}".to_vec()));
         v
